@@ -437,18 +437,23 @@ theorem send_spec {c : Cfg} {s : St} {exp : List Out} (p : Nat) (resp upd : Bool
     exact absurd (h.okConn hok) hconn
 
 
+theorem send_frame_t (c : Cfg) (s : St) (p : Nat) (resp upd : Bool) (t : Nat) :
+    (send c s p resp upd t).1.cd = s.cd ∧ (send c s p resp upd t).1.cdWait = s.cdWait ∧
+    (send c s p resp upd t).1.now = s.now ∧ (send c s p resp upd t).1.conn = s.conn ∧
+    (send c s p resp upd t).1.pac = s.pac ∧ (send c s p resp upd t).1.tSet = s.tSet ∧
+    (send c s p resp upd t).1.connOk = s.connOk ∧ (send c s p resp upd t).1.log = s.log := by
+  unfold send
+  split
+  · simp only [noteOnBus]
+    split <;> simp
+  · simp
+
 theorem send_frame (c : Cfg) (s : St) (p : Nat) (resp upd : Bool) :
     (send c s p resp upd s.now).1.cd = s.cd ∧ (send c s p resp upd s.now).1.cdWait = s.cdWait ∧
     (send c s p resp upd s.now).1.now = s.now ∧ (send c s p resp upd s.now).1.conn = s.conn ∧
     (send c s p resp upd s.now).1.pac = s.pac ∧ (send c s p resp upd s.now).1.tSet = s.tSet ∧
-    (send c s p resp upd s.now).1.connOk = s.connOk ∧ (send c s p resp upd s.now).1.log = s.log := by
-  by_cases hconn : s.conn = true
-  · rw [send_conn p resp upd hconn]
-    have hf := noteOnBus_frame (sent1 c s p upd) s.now .sent
-    exact ⟨hf.1, hf.2.2.2.2.2.2.1, hf.2.2.2.2.2.2.2.2.1, hf.2.2.2.2.2.1, hf.2.2.2.1, hf.2.1, hf.2.2.1,
-      hf.2.2.2.2.2.2.2.2.2.2.1⟩
-  · rw [send_noconn p resp upd s.now (by simpa using hconn)]
-    simp
+    (send c s p resp upd s.now).1.connOk = s.connOk ∧ (send c s p resp upd s.now).1.log = s.log :=
+  send_frame_t c s p resp upd s.now
 
 /-- `start_task(cooldown)` when nothing is pending. -/
 theorem restartCd_spec {c : Cfg} {s : St} {exp : List Out} (h : Inv1 c s exp) (hn : Noted s) (hp : NoPend s) :
@@ -995,5 +1000,208 @@ theorem step_GInv (c : Cfg) (s : St) (o : Obs) (s' : St) (h : GInv c s) (hs : st
 theorem GInv_run (c : Cfg) (k : Bool) (tr : List Obs) (s : St) (h : run? (step? c) (init c k) tr = some s) :
     GInv c s :=
   inv_run? (step? c) (GInv c) (step_GInv c) tr (init c k) s (Inv_init c k) h
+
+
+/-! ### Relating the ghost fields to the trace -/
+
+/-- The part of the state that is a function of the inputs alone. -/
+def toTrack (s : St) : Track := ⟨s.pac, s.tSet, s.conn, s.connOk⟩
+
+/-- The fields that only inputs change. -/
+def SameIn (s s' : St) : Prop := toTrack s' = toTrack s ∧ s'.log = s.log
+
+theorem SameIn.refl (s : St) : SameIn s s := ⟨rfl, rfl⟩
+
+theorem SameIn.trans {a b d : St} (h1 : SameIn a b) (h2 : SameIn b d) : SameIn a d :=
+  ⟨h2.1.trans h1.1, h2.2.trans h1.2⟩
+
+theorem SameIn.of_fields {s s' : St} (h1 : s'.pac = s.pac) (h2 : s'.tSet = s.tSet) (h3 : s'.conn = s.conn)
+    (h4 : s'.connOk = s.connOk) (h5 : s'.log = s.log) : SameIn s s' := by
+  refine ⟨?_, h5⟩
+  simp only [toTrack, h1, h2, h3, h4]
+
+theorem send_SameIn (c : Cfg) (s : St) (p : Nat) (resp upd : Bool) (t : Nat) : SameIn s (send c s p resp upd t).1 :=
+  have hf := send_frame_t c s p resp upd t
+  SameIn.of_fields hf.2.2.2.2.1 hf.2.2.2.2.2.1 hf.2.2.2.1 hf.2.2.2.2.2.2.1 hf.2.2.2.2.2.2.2
+
+theorem restartCd_SameIn (c : Cfg) (s : St) (t : Nat) : SameIn s (restartCd c s t) := by
+  unfold restartCd; split <;> exact ⟨rfl, rfl⟩
+
+theorem noteOnBus_SameIn (s : St) (t : Nat) (why : Why) : SameIn s (noteOnBus s t why) :=
+  have hf := noteOnBus_frame s t why
+  SameIn.of_fields hf.2.2.2.1 hf.2.1 hf.2.2.2.2.2.1 hf.2.2.1 hf.2.2.2.2.2.2.2.2.2.2.1
+
+theorem cooldownTarget_SameIn (c : Cfg) (s : St) (t : Nat) : SameIn s (cooldownTarget c s t).1 := by
+  unfold cooldownTarget
+  split
+  · exact ⟨rfl, rfl⟩
+  · split
+    · exact ⟨rfl, rfl⟩
+    · exact SameIn.trans (b := armCd c s t) ⟨rfl, rfl⟩ (send_SameIn c (armCd c s t) _ false true t)
+
+theorem fire_SameIn (c : Cfg) (s : St) (tm : Timer) : SameIn s (fire c s tm).1 := by
+  cases tm with
+  | cd d =>
+    show SameIn s (fireCd c (tick s d) d).1
+    unfold fireCd
+    split
+    · exact SameIn.trans (b := tick s d) ⟨rfl, rfl⟩ (cooldownTarget_SameIn c (tick s d) d)
+    · exact ⟨rfl, rfl⟩
+  | per d =>
+    show SameIn s (firePer c (tick s d) d).1
+    unfold firePer
+    split
+    · simp only
+      refine SameIn.trans (b := perLoop c (tick s d) d) ⟨rfl, rfl⟩ ?_
+      exact SameIn.trans (send_SameIn c (perLoop c (tick s d) d) _ false false d) (restartCd_SameIn c _ _)
+    · exact ⟨rfl, rfl⟩
+
+theorem advance_SameIn {c : Cfg} {s s1 : St} {t : Nat} {incl : Bool} {fuel : Nat}
+    (ha : advance c t incl fuel s = some s1) : SameIn s s1 :=
+  (advance_ind (c := c) (t := t) (incl := incl) (fun s' => SameIn s s')
+    (fun s' tm hp _ _ _ => hp.trans (fire_SameIn c s' tm)) fuel s s1 (SameIn.refl s) ha).1
+
+/-- An input changes the input-determined part of the state exactly as `track1` says, and not the log. -/
+theorem inputReaction_track {c : Cfg} {s : St} {o : Obs} {r : St × List Out}
+    (hr : inputReaction c s o = some r) : toTrack r.1 = track1 (toTrack s) o ∧ r.1.log = s.log := by
+  cases o with
+  | set p sk t =>
+    simp only [inputReaction, Option.some.injEq] at hr
+    subst hr
+    unfold doSet
+    simp only [track1]
+    by_cases hsk : (sk && s.pac == some p) = true
+    · have hsk' : (sk && (toTrack s).lastSet == some p) = true := hsk
+      rw [if_pos hsk, if_pos hsk']
+      exact ⟨rfl, rfl⟩
+    · have hsk' : ¬ (sk && (toTrack s).lastSet == some p) = true := hsk
+      rw [if_neg hsk, if_neg hsk']
+      have hn := noteOnBus_SameIn (takeUpdate s p t) t .already
+      have base : toTrack (takeUpdate s p t) =
+          { toTrack s with lastSet := some p, tSet := some t, connOk := (toTrack s).conn } := rfl
+      have fin : ∀ s3 : St, SameIn (noteOnBus (takeUpdate s p t) t .already) s3 →
+          toTrack s3 = { toTrack s with lastSet := some p, tSet := some t, connOk := (toTrack s).conn } ∧
+            s3.log = s.log :=
+        fun s3 h3 => ⟨(h3.1.trans hn.1).trans base, (h3.2.trans hn.2)⟩
+      show toTrack (if (c.cool != 0) = true then
+          (if (noteOnBus (takeUpdate s p t) t .already).cdRunning = true then (noteOnBus (takeUpdate s p t) t .already, [])
+           else send c (startCd c (noteOnBus (takeUpdate s p t) t .already) t) p false true t)
+          else send c (noteOnBus (takeUpdate s p t) t .already) p false true t).1 = _ ∧ _
+      split
+      · split
+        · exact fin _ (SameIn.refl _)
+        · exact fin _ (SameIn.trans (b := startCd c (noteOnBus (takeUpdate s p t) t .already) t) ⟨rfl, rfl⟩
+            (send_SameIn c _ p false true t))
+      · exact fin _ (send_SameIn c _ p false true t)
+  | init p t =>
+    simp only [inputReaction, Option.some.injEq] at hr
+    subst hr
+    exact ⟨rfl, rfl⟩
+  | read t =>
+    simp only [inputReaction, Option.some.injEq] at hr
+    subst hr
+    have : SameIn s (doRead c s t).1 := by
+      unfold doRead
+      split
+      · exact ⟨rfl, rfl⟩
+      · split
+        · simp only
+          exact SameIn.trans (send_SameIn c s _ true false t) (restartCd_SameIn c _ _)
+        · split
+          · exact send_SameIn c s _ true false t
+          · exact ⟨rfl, rfl⟩
+    exact ⟨this.1, this.2⟩
+  | bus p t =>
+    simp only [inputReaction, Option.some.injEq] at hr
+    subst hr
+    have : SameIn s (doBus s p t) := by
+      unfold doBus
+      exact SameIn.trans (b := { s with last := some p }) ⟨rfl, rfl⟩ (noteOnBus_SameIn _ t .other)
+    exact ⟨this.1, this.2⟩
+  | conn u t =>
+    simp only [inputReaction, Option.some.injEq] at hr
+    subst hr
+    unfold doConn
+    simp only [track1]
+    by_cases hsame : (s.conn == u) = true
+    · have hsame' : ((toTrack s).conn == u) = true := hsame
+      rw [if_pos hsame, if_pos hsame']
+      exact ⟨rfl, rfl⟩
+    · have hsame' : ¬ ((toTrack s).conn == u) = true := hsame
+      rw [if_neg hsame, if_neg hsame']
+      cases u with
+      | true =>
+        simp only [↓reduceIte]
+        split
+        · have := cooldownTarget_SameIn c (connUp c s t) t
+          exact ⟨this.1, this.2⟩
+        · exact ⟨rfl, rfl⟩
+      | false =>
+        simp only [Bool.false_eq_true, ↓reduceIte]
+        exact ⟨rfl, rfl⟩
+  | out x => simp [inputReaction] at hr
+  | q p t => simp [inputReaction] at hr
+  | fin t => simp [inputReaction] at hr
+
+theorem track_snoc (k : Bool) (h : List Obs) (e : Obs) : track k (h ++ [e]) = track1 (track k h) e := by
+  simp [track, List.foldl_append]
+
+theorem outsOf_snoc (h : List Obs) (e : Obs) :
+    outsOf (h ++ [e]) = outsOf h ++ (match e with | .out x => [x] | _ => []) := by
+  simp only [outsOf, List.filterMap_append]
+  cases e <;> simp
+
+/-- Trace-indexed invariant: the value set last, the time of the last update taken, the connection state
+and the outputs observed are the corresponding functions of the trace. -/
+structure HInv (k : Bool) (tr : List Obs) (s : St) : Prop where
+  trk : toTrack s = track k tr
+  log : s.log = (outsOf tr).reverse
+
+theorem HInv_init (c : Cfg) (k : Bool) : HInv k [] (init c k) := ⟨rfl, rfl⟩
+
+theorem HInv.same {k : Bool} {tr : List Obs} {s s' : St} (h : HInv k tr s) (hs : SameIn s s') : HInv k tr s' :=
+  ⟨hs.1.trans h.trk, hs.2.trans h.log⟩
+
+theorem step_HInv (c : Cfg) (k : Bool) (h : List Obs) (s : St) (e : Obs) (s' : St) (hi : HInv k h s)
+    (hs : step? c s e = some s') : HInv k (h ++ [e]) s' := by
+  obtain ⟨_, hc⟩ := step_cases hs
+  cases hc with
+  | consume x ho hne ht hmem hs =>
+    subst hs; subst ho
+    refine ⟨?_, ?_⟩
+    · rw [track_snoc]; exact hi.trk
+    · simp [outsOf_snoc, hi.log]
+  | fire x s1 ho he ha hf =>
+    subst ho
+    obtain ⟨tm, _, _, _, rfl⟩ := fireAt_cases hf
+    have h1 := (hi.same (advance_SameIn ha)).same (fire_SameIn c s1 tm)
+    refine ⟨?_, ?_⟩
+    · rw [track_snoc]; exact h1.trk
+    · simp [outsOf_snoc, h1.log]
+  | input s1 r he ha hr hs =>
+    subst hs
+    have h1 : HInv k h (tick s1 e.time) := (hi.same (advance_SameIn ha)).same ⟨rfl, rfl⟩
+    obtain ⟨ht, hl⟩ := inputReaction_track hr
+    have hnotout : (match e with | .out x => [x] | _ => ([] : List Out)) = [] := by
+      cases e <;> simp [inputReaction] at hr ⊢
+    refine ⟨?_, ?_⟩
+    · rw [track_snoc, ← h1.trk]; exact ht
+    · rw [outsOf_snoc, hnotout, List.append_nil]
+      exact hl.trans h1.log
+  | sample s1 he ha hq hs =>
+    subst hs
+    have h1 : HInv k h (tick s1 e.time) := (hi.same (advance_SameIn ha)).same ⟨rfl, rfl⟩
+    have hnotout : (match e with | .out x => [x] | _ => ([] : List Out)) = [] := by
+      cases e <;> simp [sampleOk] at hq ⊢
+    have htr : track1 (track k h) e = track k h := by
+      cases e <;> simp [sampleOk] at hq <;> rfl
+    refine ⟨?_, ?_⟩
+    · rw [track_snoc, htr]; exact h1.trk
+    · rw [outsOf_snoc, hnotout, List.append_nil]; exact h1.log
+
+theorem HInv_run (c : Cfg) (k : Bool) (tr : List Obs) (s : St) (h : run? (step? c) (init c k) tr = some s) :
+    HInv k tr s := by
+  have := inv_hist_run? (step? c) (HInv k) (step_HInv c k) tr [] (init c k) s (HInv_init c k) h
+  simpa using this
 
 end XknxVerif.Expose
